@@ -19,14 +19,14 @@ func TestMain(m *testing.M) { vt.Main(m, rec) }
 type workCase struct {
 	N       int     `json:"n"`
 	Initial []int   `json:"initial"`
-	Succ    [][]int `json:"succ"`   // successors added while processing item i
-	Yields  []int   `json:"yields"` // explicit yields inside f(i), before the Adds
+	Succ    [][]int `json:"succ"`            // successors added while processing item i
+	Yields  []int   `json:"yields"`          // explicit yields inside f(i), before the Adds
 	After   []int   `json:"after,omitempty"` // explicit yields inside f(i) after its Adds (f is still in progress then)
 	// WaitFor[i]: after its Adds, f(i) blocks until each listed item has started (calls of f that depend on other items
 	// being picked up). Honoured only when n >= number of reachable items and every listed item is an initial item or a
 	// successor of i (then a correct Work always has an idle runner for an unstarted item, so the wait ends).
 	WaitFor [][]int `json:"wait_for,omitempty"`
-	Mode    string  `json:"mode"`   // seq | pct
+	Mode    string  `json:"mode"` // seq | pct
 	// Items optionally gives the value used for item i: "" or "int" = the int i, "nil" = a nil item,
 	// "string" = a string, "struct" = a comparable struct (all valid map keys).
 	Items   []string `json:"items,omitempty"`
